@@ -43,7 +43,7 @@ def apply(F):
                 }}
 ''')
     F.attr(K, r'const KEM_ID\b', ['#[verifier::external_body]'])
-    F.contract(K, r'fn sk_to_pk\b', ret='r', clauses='\n                    ensures /*@C03 C01*/ r.ser() == Self::k_pk_of(sk.ser()),\n')
+    F.contract(K, r'fn sk_to_pk\b', ret='r', clauses='\n                    ensures /*@C03 ~C01*/ r.ser() == Self::k_pk_of(sk.ser()),\n')
     # N7 (see decap below): derive_keypair and encap instantiate generics with Self
     F.hoist(K, r'fn derive_keypair\b', 'derive_keypair_body', '$kem_name', trait='KemTrait')
     F.contract(K, r'fn derive_keypair\b', ret='r', attrs=['#[verifier::external_body]'], discharged_by='N7 delegation to the verified derive_keypair_body')
